@@ -163,16 +163,30 @@ func (c *Ctx) akaPaddingRule(r *Report, prefix string) {
 		okP := false
 		for _, b := range ma.Blocks {
 			for _, ins := range b.Instrs {
-				call := staticCallTo(valueOf(ins), "encoding/binary.Write")
-				if call == nil {
+				// the fill octets: a fresh zero slice handed to binary.Write or appended to the output
+				mk, ok := ins.(*ssa.MakeSlice)
+				if !ok || !isByteSlice(mk.Type()) {
 					continue
 				}
-				data := call.Call.Args[2]
-				if mi, ok := data.(*ssa.MakeInterface); ok {
-					data = mi.X
+				emitted := false
+				for _, ref := range *mk.Referrers() {
+					switch u := ref.(type) {
+					case *ssa.MakeInterface:
+						for _, r2 := range *u.Referrers() {
+							if call, ok := r2.(*ssa.Call); ok && staticCallTo(call, "encoding/binary.Write") != nil {
+								emitted = true
+							}
+						}
+					case *ssa.Call:
+						// appended to the output under construction, not onto a field of the message
+						if ap := isAppendCall(u); ap != nil && ap.Call.Args[1] == ssa.Value(mk) {
+							if _, isField := fieldKeyOfLoad(ap.Call.Args[0]); !isField {
+								emitted = true
+							}
+						}
+					}
 				}
-				mk, ok := data.(*ssa.MakeSlice)
-				if !ok {
+				if !emitted {
 					continue
 				}
 				// len = 4*int(length) - hdr - len(value)
@@ -197,6 +211,81 @@ func (c *Ctx) akaPaddingRule(r *Report, prefix string) {
 					}
 				}
 				if hasLen4 && hasVal && clean {
+					okP = true
+				}
+			}
+		}
+		// or: a loop that appends one zero octet per round, count = 4*length - header - len(value)
+		if !okP {
+			for _, li := range naturalLoops(ma) {
+				iff, ok := li.header.Instrs[len(li.header.Instrs)-1].(*ssa.If)
+				if !ok {
+					continue
+				}
+				cond, ok := iff.Cond.(*ssa.BinOp)
+				if !ok || cond.Op != token.LSS {
+					continue
+				}
+				ph, ok := cond.X.(*ssa.Phi)
+				if !ok || ph.Block() != li.header {
+					continue
+				}
+				zeroStart, stepOne := false, false
+				for _, e := range ph.Edges {
+					if k, ok := e.(*ssa.Const); ok {
+						if kv, _ := constInt64(k.Value); kv == 0 {
+							zeroStart = true
+						}
+					} else if bo, ok := e.(*ssa.BinOp); ok && bo.Op == token.ADD && bo.X == ssa.Value(ph) {
+						if k, ok := bo.Y.(*ssa.Const); ok {
+							if kv, _ := constInt64(k.Value); kv == 1 {
+								stepOne = true
+							}
+						}
+					}
+				}
+				zeros := 0
+				other := false
+				for b := range li.body {
+					for _, ins := range b.Instrs {
+						call, ok := ins.(*ssa.Call)
+						if !ok {
+							continue
+						}
+						ap := isAppendCall(call)
+						if ap == nil {
+							if _, isB := call.Call.Value.(*ssa.Builtin); !isB {
+								other = true
+							}
+							continue
+						}
+						if parts, ok := c.concatOf(f, ap, nil, 0); ok && len(parts) >= 1 {
+							last := parts[len(parts)-1]
+							if k, isK := last.Val.(*ssa.Const); last.Kind == "byte" && isK && k.Value != nil && k.Value.ExactString() == "0" {
+								zeros++
+								continue
+							}
+						}
+						other = true
+					}
+				}
+				if !zeroStart || !stepOne || zeros != 1 || other {
+					continue
+				}
+				l := f.LFOf(cond.Y)
+				hasLen4, hasVal := false, false
+				for a, k := range l.T {
+					d := f.atomDef(a)
+					if k == 4 && d != nil {
+						if _, fld, ok := fieldLoad(d); ok && fld == "length" {
+							hasLen4 = true
+						}
+					}
+					if k == -1 && f.fieldOfLenAtom(a) != "" && strings.HasSuffix(f.fieldOfLenAtom(a), ".value") {
+						hasVal = true
+					}
+				}
+				if hasLen4 && hasVal {
 					okP = true
 				}
 			}
@@ -333,6 +422,74 @@ func (c *Ctx) akaOrderRule(r *Report, ruleO string) {
 	if ma := c.Method("eap", "EapAkaPrime", "Marshal"); ma != nil {
 		gk := c.Method("eap", "EapAkaPrime", "getAttrsKeys")
 		okS := false
+		if gk == nil {
+			// the key collection was folded into Marshal: the attributes are looked up by keys read from a
+			// slice that went through a sort call before the look-up (the range over the map that fills the
+			// slice is covered by the order-insensitivity check above)
+			for _, b := range ma.Blocks {
+				for _, ins := range b.Instrs {
+					lk, ok := ins.(*ssa.Lookup)
+					if !ok {
+						continue
+					}
+					if _, fld, isF := fieldLoad(lk.X); !isF || fld != "attributes" {
+						continue
+					}
+					u, ok := lk.Index.(*ssa.UnOp)
+					if !ok {
+						continue
+					}
+					ia, ok := u.X.(*ssa.IndexAddr)
+					if !ok {
+						continue
+					}
+					for _, b2 := range ma.Blocks {
+						for _, i2 := range b2.Instrs {
+							call, ok := i2.(*ssa.Call)
+							if !ok {
+								continue
+							}
+							cal := call.Call.StaticCallee()
+							if cal == nil || !(strings.HasPrefix(cal.String(), "sort.") || strings.HasPrefix(cal.String(), "slices.Sort")) {
+								continue
+							}
+							arg := call.Call.Args[0]
+							if mi, ok := arg.(*ssa.MakeInterface); ok {
+								arg = mi.X
+							}
+							same := arg == ia.X
+							if !same {
+								// two loads of one local cell (a slice variable captured by the sort closure)
+								la, ok1 := arg.(*ssa.UnOp)
+								lb, ok2 := ia.X.(*ssa.UnOp)
+								if ok1 && ok2 && la.Op == token.MUL && lb.Op == token.MUL && la.X == lb.X {
+									if al, ok := la.X.(*ssa.Alloc); ok {
+										same = true
+										for _, ref := range *al.Referrers() {
+											// no store to the cell can execute after the sort
+											if st, ok := ref.(*ssa.Store); ok && st.Addr == ssa.Value(al) {
+												if st.Block() == call.Block() {
+													if instrIndex(st) > instrIndex(call) {
+														same = false
+													}
+												} else if blockReaches(call.Block(), st.Block()) {
+													same = false
+												}
+											}
+										}
+									}
+								}
+							}
+							if same && dominatesInstr(call, lk) {
+								okS = true
+							}
+						}
+					}
+				}
+			}
+			r.Check(okS, ruleO, "(*eap.EapAkaPrime).Marshal iterates the sorted keys", c.Pos(ma.Pos()), "attributes are looked up by the elements of a slice sorted beforehand", "Marshal does not iterate a sorted key list")
+			return
+		}
 		if gk != nil {
 			for _, call := range c.callsTo(ma, gk) {
 				// the loop ranges over the result
@@ -389,6 +546,9 @@ func (c *Ctx) akaEmitsAllRule(r *Report, rule string) {
 	r.Rule(rule, "getAttrsKeys collects every key of the attribute map (one range over the map, the append is not conditional), and Marshal emits the attribute of every collected key", 2)
 	gk := c.Method("eap", "EapAkaPrime", "getAttrsKeys")
 	ma := c.Method("eap", "EapAkaPrime", "Marshal")
+	if gk == nil && ma != nil {
+		gk = ma // the key collection was folded into Marshal: its collecting loop is looked for there
+	}
 	if gk == nil || ma == nil {
 		r.undecided(rule, "anchors", "-", "getAttrsKeys / Marshal do not resolve")
 		return
@@ -512,4 +672,24 @@ func (c *Ctx) akaValueIdentityRule(r *Report, prefix string) {
 		}
 		r.Check(ok, ruleV, "(*eap.EapAkaPrimeAttr).GetValue", c.Pos(gv.Pos()), "returns the value field", "GetValue does not return the stored value")
 	}
+}
+
+
+// blockReaches: b is reachable from a by at least one edge.
+func blockReaches(a, b *ssa.BasicBlock) bool {
+	seen := map[*ssa.BasicBlock]bool{}
+	st := append([]*ssa.BasicBlock(nil), a.Succs...)
+	for len(st) > 0 {
+		x := st[len(st)-1]
+		st = st[:len(st)-1]
+		if seen[x] {
+			continue
+		}
+		seen[x] = true
+		if x == b {
+			return true
+		}
+		st = append(st, x.Succs...)
+	}
+	return false
 }
